@@ -133,6 +133,8 @@ def check(prog: Program, run: Run) -> None:
     common.run_as(run, "C02.R2", "C04.R3", lambda r: c02._atomic_sites(prog, r))
     from . import c01
     common.run_as(run, "C01.R1", "C04.R6", lambda r: c01._pairing(prog, r))
+    # a misaligned emplace_bytes call is reported as RuntimeError: a foreign exception
+    common.run_as(run, "C02.R3", "C04.R1", lambda r: c02._emplace_alignment(prog, r))
     _required_unknown(prog, run)
     _non_settable(prog, run)
     common.g5_absence_by_truthiness(prog, run, "C04.G5", [
